@@ -180,7 +180,8 @@ pub fn with_breaker<C>(case: &C, f: impl Fn(&C) -> vcore::Outcome) -> vcore::Out
     }
     let o = f(case);
     match &o {
-        vcore::Outcome::Inconclusive { .. } => {
+        vcore::Outcome::Inconclusive { why } => {
+            eprintln!("C17: inconclusive case: {why}");
             HUNG.fetch_add(1, Ordering::SeqCst);
         }
         _ => HUNG.store(0, Ordering::SeqCst),
